@@ -28,6 +28,8 @@
 #include <sstream>
 #include <unistd.h>
 #include <signal.h>
+#include <sys/time.h>
+#include <time.h>
 
 namespace vh {
 
@@ -80,6 +82,8 @@ struct state_t {
     int samples = 0;
     std::string cur_cls, cur_id;
     std::map<std::string, std::string> opts;
+    long case_cpu_budget_s = 0;      // 0: no budget
+    uint64_t case_cpu_start_ns = 0;
 };
 inline state_t& st() { static state_t s; return s; }
 
@@ -92,6 +96,30 @@ inline void sig_handler(int sig, siginfo_t* si, void*) {
     printf("@@SIGNAL %d addr=%p\n", sig, si ? si->si_addr : nullptr);
     on_death();
     _exit(98);
+}
+// ---- per-case CPU budget (a logical bound: CPU time consumed by this process, not wall-clock time).
+// A case that normally needs well under a second and has burnt the whole budget is a loop that does not
+// terminate; the driver reports it as CNN|monitor.case-cpu-budget|noframe|<case class>.
+inline uint64_t cpu_now_ns() { struct timespec ts; clock_gettime(CLOCK_PROCESS_CPUTIME_ID, &ts); return (uint64_t)ts.tv_sec * 1000000000ull + (uint64_t)ts.tv_nsec; }
+inline void cpu_budget_handler(int) {
+    state_t& s = st();
+    char buf[512];
+    int n = snprintf(buf, sizeof buf, "\n@@FATAL case-cpu-budget | case %ld %s %s consumed more than %ld s of CPU\n", s.idx, s.cur_cls.c_str(), s.cur_id.c_str(), s.case_cpu_budget_s);
+    fflush(stdout);
+    if (n > 0) { ssize_t r = write(1, buf, (size_t)(n < (int)sizeof buf ? n : (int)sizeof buf - 1)); (void)r; }
+    on_death();
+    _exit(97);
+}
+inline void case_cpu_mark(bool arm) {
+    state_t& s = st();
+    uint64_t now = cpu_now_ns();
+    if (s.case_cpu_start_ns) { uint64_t ms = (now - s.case_cpu_start_ns) / 1000000ull; uint64_t& mx = s.stats["max_case_cpu_ms"]; if (ms > mx) mx = ms; }
+    s.case_cpu_start_ns = arm ? now : 0;
+    if (s.case_cpu_budget_s > 0) {
+        struct itimerval it; memset(&it, 0, sizeof it);
+        if (arm) it.it_value.tv_sec = s.case_cpu_budget_s;
+        setitimer(ITIMER_PROF, &it, nullptr);
+    }
 }
 inline void init(int argc, char** argv) {
     state_t& s = st();
@@ -122,6 +150,11 @@ inline void init(int argc, char** argv) {
         else if (a.size() > 2 && a[0] == '-' && a[1] == '-') s.opts[a.substr(2)] = val();
     }
     if (s.shard_n < 1) s.shard_n = 1;
+    {
+        const char* e = getenv("VERIF_CASE_CPU_S");
+        s.case_cpu_budget_s = e ? atol(e) : (s.thorough ? 7200 : 1200);
+        if (s.case_cpu_budget_s > 0) signal(SIGPROF, &cpu_budget_handler);
+    }
 }
 inline bool thorough() { return st().thorough; }
 inline uint64_t seed() { return st().seed; }
@@ -145,6 +178,7 @@ inline bool begin_case(const std::string& cls, const std::string& id) {
     printf("@@CASE %ld %s %s\n", s.idx, cls.c_str(), id.c_str());
     fflush(stdout);
     ++s.ran;
+    case_cpu_mark(true);
     return true;
 }
 // rng for the current case: depends on seed and the case id only, so a case replays alone
@@ -198,6 +232,7 @@ inline void dump_counters() {
     fflush(stdout);
 }
 inline int finish() {
+    case_cpu_mark(false);
     dump_counters();
     printf("@@DONE\n");
     fflush(stdout);
